@@ -327,6 +327,10 @@ func (pm *ProtocolManager) handleMsg(p *peer) error {
 		}
 
 		if len(blocks) == 0 && len(hashes) > 0 {
+			// list only the first few hashes: a peer may send hundreds of thousands
+			if len(hashes) > 16 {
+				hashes = hashes[:16]
+			}
 			list := "["
 			for _, hash := range hashes {
 				list += fmt.Sprintf("%x, ", hash[:4])
